@@ -96,7 +96,15 @@ constexpr void enumerate(F&& f)
     for(unsigned ic = 0; ic < pow3(N); ic++)
     {
         for(int k = K_STRLEN; k <= K_STRLEN_R_CONST; k++)
+        {
+#if !SBEPP_HAS_IS_CONSTANT_EVALUATED
+            // without std::is_constant_evaluated() (here: switched off by the harness for clang 14 in c++2b mode, DESIGN 2.1)
+            // strlen() has only its memchr branch and is documented as not usable in constant expressions
+            if(k == K_STRLEN || k == K_STRLEN_CONST)
+                continue;
+#endif
             f(cell_id{k, ic, 0, 0, -1});
+        }
         for(unsigned L = 0; L <= N; L++)
         {
             for(unsigned inc = 0; inc < pow3(L); inc++)
@@ -309,6 +317,9 @@ int main()
     for_n<C14_CXN>::run();
     for(int k = 0; k < K_KINDS; k++)
         std::printf("CXOP %s %llu\n", kind_names[k], g_per_kind[k]);
+#if !SBEPP_HAS_IS_CONSTANT_EVALUATED
+    std::printf("CXNOTE strlen-not-constant-evaluated\n");
+#endif
     std::printf("CXTOTAL cells=%llu mismatches=%llu\n", g_cells, g_mismatch);
     return 0;
 }
